@@ -163,7 +163,7 @@ impl Builder {
             ..TxEnv::default()
         };
         self.fee(rng, &mut tx);
-        self.nonces.insert(from, nonce + 1);
+        self.nonces.insert(from, nonce.saturating_add(1));
         self.txs.push(tx);
         self.desc.push(desc);
         self.txs.len() - 1
@@ -248,7 +248,12 @@ pub fn gen_mixed(rng: &mut Rng, spec: SpecId, n_txs: usize) -> Block {
     // reads the beneficiary balance and stores it
     b.db.insert_contract(
         contract(2),
-        asm::assemble(&[Stmt::Sstore(c(0), Expr::Balance(Box::new(Expr::Coinbase))), Stmt::Sstore(c(1), add(sload(1), c(1)))]),
+        asm::assemble(&[
+            Stmt::Sstore(c(0), Expr::Balance(Box::new(Expr::Coinbase))),
+            Stmt::Sstore(c(1), add(sload(1), c(1))),
+            // BLOCKHASH goes through the block-hash cache of the committed state
+            Stmt::Sstore(c(2), Expr::BlockHash(Box::new(Expr::Sub(Box::new(Expr::Number), Box::new(add(sload(1), c(1))))))),
+        ]),
         U256::ZERO,
         &[],
     );
@@ -501,9 +506,20 @@ pub fn gen_invalid(rng: &mut Rng, spec: SpecId, n_txs: usize) -> Block {
     let coded = contract(30);
     b.db.insert_contract(coded, vec![0x00], U256::from(ETHER), &[]);
     b.nonces.insert(coded, 1);
+    // a sender whose nonce is exhausted (nonce overflow is classified before execution)
+    let maxed = eoa(n_eoas + 1);
+    b.db.insert_eoa(maxed, U256::from(ETHER), u64::MAX);
+    b.nonces.insert(maxed, u64::MAX);
     for _ in 0..n_txs {
         let from = eoa(rng.below(n_eoas));
-        match rng.below(14) {
+        match rng.below(15) {
+            14 => {
+                let to = eoa(rng.below(n_eoas));
+                let i = b.transfer(rng, maxed, to, 1);
+                b.txs[i].nonce = u64::MAX;
+                b.nonces.insert(maxed, u64::MAX);
+                b.desc[i].push_str(" [nonce overflow]");
+            }
             0 => {
                 // nonce too low
                 let i = b.transfer(rng, from, eoa(0), 1);
